@@ -193,7 +193,14 @@ class K:
     def assume(self, cond, tag="contract-assume"):
         self.requires(cond)
 
-    def ensures(self, name, cond, kind="post"):
+    def ensures(self, name, cond, kind="post", bounded=False):
+        """`bounded=True`: a clause that is only checked natively on sampled small inputs (a bounded
+        stand-in, never counted as proved); `cond` may then be a thunk evaluated in native mode only."""
+        if bounded:
+            if self.mode != "native":
+                cur().memo.setdefault("bounded_clauses", set()).add(name)
+                return
+            cond = cond() if callable(cond) else cond
         self.n_ensures += 1
         if self.mode == "native":
             if not bool(cond):
@@ -282,6 +289,8 @@ def _k_at(self, arr, idx):
     if self.mode == "native":
         import numpy as np
 
+        if not isinstance(arr, np.ndarray) and hasattr(arr, "__array__"):
+            arr = np.asarray(arr)
         if isinstance(arr, np.ndarray):
             v = arr[tuple(int(i) for i in idx)] if idx else arr[()]
             return v.item() if hasattr(v, "item") else v
@@ -298,6 +307,9 @@ def _k_at(self, arr, idx):
 def _k_shape(self, arr):
     if self.mode == "native":
         import numpy as np
+
+        if not isinstance(arr, np.ndarray) and hasattr(arr, "__array__"):
+            arr = np.asarray(arr)
 
         return tuple(np.shape(arr))
     if isinstance(arr, SymArray):
